@@ -157,7 +157,14 @@ func (u *Unit) argShape(e ast.Expr, at ast.Node, depth int) string {
 	case *ast.IndexExpr:
 		return u.argShape(x.X, at, depth) + "[" + u.argShape(x.Index, at, depth+1) + "]"
 	case *ast.SliceExpr:
-		return u.argShape(x.X, at, depth) + "[:]"
+		lo, hi := "", ""
+		if x.Low != nil {
+			lo = u.argShape(x.Low, at, depth+1)
+		}
+		if x.High != nil {
+			hi = u.argShape(x.High, at, depth+1)
+		}
+		return u.argShape(x.X, at, depth) + "[" + lo + ":" + hi + "]"
 	case *ast.CompositeLit:
 		if len(x.Elts) > 0 && len(x.Elts) <= 3 && depth < 3 {
 			es := []string{}
